@@ -791,7 +791,7 @@ fn mention(out: &mut Vec<GSpec>) {
     }
     // depth 3
     for f in [&w1[1], &w1[2], &w1[8]] {
-        for g in [&w1[1], &w1[2], &w1[6], &w1[8]] {
+        for g in [&w1[1], &w1[2], &w1[4], &w1[5], &w1[6], &w1[8]] {
             for h in [&w1[1], &w1[2], &w1[5], &w1[9]] {
                 shapes.push(f(&format!("({})", g(&format!("({})", h("X"))))));
             }
@@ -1075,6 +1075,65 @@ fn options(out: &mut Vec<GSpec>) {
     }
 }
 
+/// Reference cycles of length 1..6 in three declaration orders, with optional leading / trailing
+/// leaf rules: the reachability analysis behind `box_only_if_needed` (C20: recursive grammars still compile).
+pub fn cycle_grammars() -> Vec<(String, Vec<RuleSpec>, bool)> {
+    let mut out = vec![];
+    for n in 1..=6usize {
+        for (oname, order) in [("f", 0), ("r", 1), ("o", 2)] {
+            for (lead, trail) in [(false, false), (true, false), (false, true), (true, true)] {
+                let mut cyc: Vec<RuleSpec> = (0..n)
+                    .map(|i| {
+                        let next = (i + 1) % n;
+                        if n == 1 {
+                            RuleSpec::new("r0", 'N', "\"(\" ~ r0? ~ \")\"")
+                        } else {
+                            RuleSpec::new(&format!("r{}", i), 'N', &format!("\"a\" ~ r{}?", next))
+                        }
+                    })
+                    .collect();
+                match order {
+                    1 => cyc.reverse(),
+                    2 => cyc.rotate_left(1.min(n - 1)),
+                    _ => {}
+                }
+                let mut rules = vec![];
+                if lead {
+                    rules.push(RuleSpec::new("lead", 'N', "\"l\""));
+                }
+                rules.extend(cyc);
+                if trail {
+                    rules.push(RuleSpec::new("tail", 'N', "\"t\""));
+                }
+                let quick = matches!(n, 1 | 2 | 4 | 5) && order != 1;
+                out.push((format!("cyc{}{}{}{}", n, oname, if lead { "l" } else { "" }, if trail { "t" } else { "" }), rules, quick));
+            }
+        }
+    }
+    out
+}
+
+fn cycles(out: &mut Vec<GSpec>) {
+    for (name, rules, quick) in cycle_grammars() {
+        assert!(valid(&rules), "{}", name);
+        let n1 = name.starts_with("cyc1");
+        for (vi, opts) in [vec!["no_warnings = false"], vec!["box_only_if_needed"], vec!["box_only_if_needed", "pest_optimizer = false"]].iter().enumerate() {
+            out.push(GSpec {
+                id: format!("options_{}_{}", name, vi),
+                family: "options".into(),
+                quick: quick && vi < 2,
+                rules: rules.clone(),
+                alphabet: if n1 { "()".into() } else { "alt".into() },
+                max_len: if n1 { 8 } else { 6 },
+                max_len_thorough: if n1 { 10 } else { 7 },
+                options: opts.iter().map(|s| s.to_string()).collect(),
+                base_id: if vi == 0 { String::new() } else { format!("options_{}_0", name) },
+                ..Default::default()
+            });
+        }
+    }
+}
+
 pub fn all(out: &mut Vec<GSpec>) {
     let only = std::env::var("GRAMGEN_ONLY").ok();
     let want = |f: &str| only.as_deref().map_or(true, |o| o.split(',').any(|x| x == f));
@@ -1113,5 +1172,6 @@ pub fn all(out: &mut Vec<GSpec>) {
     }
     if want("options") {
         options(out);
+        cycles(out);
     }
 }
